@@ -1,15 +1,16 @@
 #!/bin/bash
 # Runs a tier of all checks on an ISOLATED snapshot of /repo (git worktree at HEAD) and of the committed
 # /verif, so that seeded changes applied to /repo meanwhile cannot leak into the run.
-# usage: thorough_isolated.sh [tier=thorough] ; log: /verif/target/isolated_<tier>.log
+# usage: thorough_isolated.sh [tier=thorough] [tag] ; log: /verif/target/isolated_<tier><tag>.log ; CHECKS="C08 C13" restricts the run
 tier=${1:-thorough}
-SNAP=/tmp/isolated_$tier
+tag=${2:-}
+SNAP=/tmp/isolated_$tier$tag
 git -C /repo worktree remove --force $SNAP/repo 2>/dev/null; rm -rf $SNAP; mkdir -p $SNAP
 git -C /repo worktree add --detach $SNAP/repo HEAD >/dev/null 2>&1 || exit 2
 mkdir -p $SNAP/verif && git -C /verif archive HEAD | tar -x -C $SNAP/verif
 sed -i "s#\"/repo/#\"$SNAP/repo/#g" $SNAP/verif/harness/ivk/Cargo.toml $SNAP/verif/harness_lichess/Cargo.toml
 sed -i "s#cd /repo #cd $SNAP/repo #" $SNAP/verif/check
 sed -i "s#cd /verif#cd $SNAP/verif#g" $SNAP/verif/run_all.sh 2>/dev/null
-( cd $SNAP/verif && CHECK_TIMEOUT=${CHECK_TIMEOUT:-7200} ./run_all.sh $tier ) > /verif/target/isolated_$tier.log 2>&1
-echo "DONE $(date -u +%FT%TZ)" >> /verif/target/isolated_$tier.log
+( cd $SNAP/verif && CHECK_TIMEOUT=${CHECK_TIMEOUT:-7200} ./run_all.sh $tier ) > /verif/target/isolated_$tier$tag.log 2>&1
+echo "DONE $(date -u +%FT%TZ)" >> /verif/target/isolated_$tier$tag.log
 git -C /repo worktree remove --force $SNAP/repo; rm -rf $SNAP
